@@ -718,4 +718,10 @@ def R9_units(ctx):
     common.unit_rule(ctx, "C08.R9", "unit typestate over the powertrain crate: every (quantity, unit) pairing, convert receiver and add_energy unit is the unit the value is expressed in", sel, floor=20)
 
 
-RULES = [R1_traverse, R2_record, R3_soc, R4_vehicles, R5_phev_switch, R6_starting_charge, R7_best_case, R8_registry, R9_units, C09.R4_constructors]
+def RA_state_model_extend(ctx):
+    """the vehicle's declared features (incl. the per-query starting SOC) reach the search state through StateModel::extend: later declaration wins (shared with C11.R4)"""
+    from props.C11 import R4_state_model
+    R4_state_model(ctx)
+
+
+RULES = [R1_traverse, R2_record, R3_soc, R4_vehicles, R5_phev_switch, R6_starting_charge, R7_best_case, R8_registry, R9_units, C09.R4_constructors, RA_state_model_extend]
